@@ -254,8 +254,9 @@ def r_loading(repo, rep, R='R17.3'):
             and {a[1] for a in t[2] if a[0] == 'const'} == {'X', 'nb'} and t[1][1][0] == 'call' and t[1][1][1] == parse \
             and len(t[1][1][2]) == 1 and t[1][1][2][0][0] == 'unpack' and t[1][1][2][0][1][0] == 'elem' and t[1][1][2][0][1][1] == it
     seen = [c for c in comps if c[0] == 'setcomp' and len(c[2]) == 1 and "pop('seen_rules')" in show(c[2][0][0])]
-    ok = len(seen) == 1 and not seen[0][2][0][1] and seen[0][1][0] == 'tuple' and len(seen[0][1][1]) == 2 \
-        and all(erased(e, seen[0][2][0][0]) for e in seen[0][1][1]) and [e[1][1][2][0][2] for e in seen[0][1][1]] == [0, 1]
+    # (one comprehension per path: the parameter object it pops from may have been popped from before, or not)
+    ok = bool(seen) and all(not c_[2][0][1] and c_[1][0] == 'tuple' and len(c_[1][1]) == 2
+                            and all(erased(e, c_[2][0][0]) for e in c_[1][1]) and [e[1][1][2][0][2] for e in c_[1][1]] == [0, 1] for c_ in seen)
     rep.check(ok, R, w, 'read_params:seen_rules',
               'seen rules are stored as pairs with X and nb erased on both sides (the key apply_binary_rules looks up)', 'seen-rule normalisation changed')
     dc = [c for c in comps if c[0] == 'dictcomp' and "pop('cat_dict')" in show(c[3][0][0])]
